@@ -30,7 +30,9 @@ RULE = ("case = site (none | 1..5 generated resources at paths of 0..3 segments,
         "returns a message (code absent / any response code, own No-Response) | raises one of the "
         "RenderableError classes of error.py (with and without diagnostic) or a harness subclass | "
         "raises one of 18 other exceptions with a secret text | returns None/str/int/bytes/dict/list/"
-        "tuple/float/object/type | raises a renderable error whose to_message raises / returns None | "
+        "tuple/float/object/type (also from a resource with its own render() and no blockwise assembly, "
+        "where the value reaches the pipe unchecked) | raises a renderable error whose to_message raises / "
+        "returns None / returns a str or tuple | "
         "raises CancelledError | never returns; delay 0, 1, EMPTY_ACK_DELAY-1/+0/+1, longer; a request "
         "may reuse the token of one still running (stop), whose handler then dies, raises or returns "
         "anyway; peers ACK separate responses at once, after one retransmission, or RST them. "
@@ -45,7 +47,7 @@ ASSUMPTIONS = [
     "handler exceptions are Exception subclasses or CancelledError; KeyboardInterrupt/SystemExit stop the process",
     "requests carry no Block1/Block2/Observe options and responses fit one message (C06/C08 cover those)",
     "a RenderableError's repr() and to_message() are the only application code run while converting it; "
-    "to_message returning an object that is neither None nor a Message is outside the quantifier",
+    "to_message returning a Message without a code or with a request code is outside the quantifier",
     "peers acknowledge separate CON responses (otherwise the message layer gives up on the peer, C03)",
 ]
 
@@ -246,6 +248,16 @@ def oracle(case, obs):
         if c09_run.SECRET in bytes.fromhex(w["payload"]) or any(c09_run.SECRET in bytes.fromhex(v) for _, v in w["options"]):
             return ("exception text / wrong return value leaked into a datagram to peer %d: code %d payload %r"
                     % (w["remote"], w["code"], bytes.fromhex(w["payload"]))), "leak"
+    # RFC 7252 2.2 / 4.2 / 5.2: a response travels piggy-backed in the ACK of its CON request (same Message ID),
+    # or as a message of its own (CON/NON); an ACK that acknowledges nothing is ignored by the client, so a
+    # response sent that way is not a final response at all
+    con_reqs = {(rq["remote"], rq["mid"]): rq["token"] for rq in case["requests"] if rq["mtype"] == "CON"}
+    for w in obs["wire"]:
+        if 64 <= w["code"] < 192 and w.get("mtype") in ("ACK", "RST"):
+            if w["mtype"] == "RST" or con_reqs.get((w["remote"], w["mid"])) != w["token"]:
+                return ("response %d for token %s to peer %d went out as %s with Message ID %d, which is not the "
+                        "Message ID of that peer's confirmable request on the token"
+                        % (w["code"], w["token"] or "-", w["remote"], w["mtype"], w["mid"])), "mtype:stray-ack"
     _, info = schedule(case)
     want = {}
     kinds = {}
@@ -355,6 +367,14 @@ class Gen:
             for path in rng.sample(PATHS, rng.randrange(1, 6)):
                 methods = rng.sample(range(1, 8), rng.randrange(0, 6))
                 site.append({"path": path, "handlers": {str(m): self.handler() for m in methods}})
+                if rng.random() < 0.2:
+                    site[-1]["direct"] = True
+                    for h in site[-1]["handlers"].values():
+                        if h["o"] == "nonmsg":
+                            # a late wrong-type return after the request was overridden is only logged, and
+                            # differently on this path (a "response after end" warning instead of a discarded
+                            # exception): not part of the property, kept out of the comparison
+                            h["stubborn"] = False
         reqs = []
         t = rng.randrange(0, 50)
         busy = {}          # (remote, token) -> tick until which the token is in use
@@ -475,6 +495,22 @@ def boundary_cases(gen):
             t += 60
             reqs.append(gen.request(t, n % 4, m, ["f", str(n)], nr=rng.choice([None, None, 16, 26])))
     pack(site, reqs, {"0": "ack", "1": "ack2", "2": "rst", "3": "ack"})
+    # 3b. every wrong return value from a resource with its own render() and no blockwise assembly (the value
+    #     reaches the pipe unchecked), immediate and slow, CON and NON, next to healthy handlers
+    site = []
+    reqs = []
+    t = 0
+    for n, val in enumerate(c09_run.NONMSG_KINDS):
+        hs = {"1": {"o": "nonmsg", "d": 0, "stubborn": False, "val": val, "k": gen.secret_k()},
+              "2": {"o": "nonmsg", "d": 3 * EAD, "stubborn": False, "val": val, "k": gen.secret_k()},
+              "3": {"o": "ret", "d": 0, "stubborn": False, "code": None, "payload": "6f6b", "nr": None},
+              "4": {"o": "exc", "d": 0, "stubborn": False, "exc": "ValueError", "k": gen.secret_k()}}
+        site.append({"path": ["w", str(n)], "handlers": hs, "direct": True})
+        for m in (1, 2, 3, 4, 5):
+            for mt in ("CON", "NON"):
+                t += 60
+                reqs.append(gen.request(t, n % 4, m, ["w", str(n)], mtype=mt, nr=None))
+    pack(site, reqs)
     # 4. No-Response: request value x response class x the response's own value
     site = []
     reqs = []
@@ -530,6 +566,27 @@ def boundary_cases(gen):
             reqs.append(gen.request(t + 6 * EAD, n % 4, 2, ["o", str(n)], mtype="NON", nr=None, token=tok))
             n += 1
     pack(site, reqs)
+    # 7. several failing requests of ONE peer whose bare 5.00 responses overlap in the message layer: separate CON
+    #    responses acknowledged only after a retransmission (or reset), the next failure before / after that
+    #    retransmission, the failures being of the same or of different kinds; then a healthy slow request
+    for policy in ("ack2", "ack", "rst"):
+        for gap in (7, EAD + 5, 30 * EAD):
+            for mts in (("CON", "CON", "CON"), ("CON", "NON", "CON"), ("NON", "CON", "NON")):
+                site = [{"path": ["g"], "handlers": {
+                    "1": {"o": "exc", "d": 3 * EAD, "stubborn": False, "exc": "ValueError", "k": gen.secret_k()},
+                    "2": {"o": "nonmsg", "d": 2 * EAD, "stubborn": False, "val": c09_run.NONMSG_KINDS[0],
+                          "k": gen.secret_k()},
+                    "3": {"o": "rfail", "d": 2 * EAD + 9, "stubborn": False, "how": "raises", "k": gen.secret_k()},
+                    "4": {"o": "exc", "d": 0, "stubborn": False, "exc": "KeyError", "k": gen.secret_k()},
+                    "5": {"o": "ret", "d": 4 * EAD, "stubborn": False, "code": None, "payload": "736c6f77",
+                          "nr": None}}}]
+                for order in ((1, 2, 3, 4, 1, 5), (1, 2, 3, 1, 2, 5)):
+                    reqs = []
+                    t = 50
+                    for i, m in enumerate(order):
+                        reqs.append(gen.request(t, 1, m, ["g"], mtype=mts[i % 3], nr=None))
+                        t += gap
+                    pack(site, reqs, {"1": policy})
     return cases
 
 
